@@ -423,6 +423,8 @@ class _Cy2Py:
             return self._comprehension(n)
         if cn == 'StarredUnpackingNode':
             return L(ast.Starred(value=self.expr(n.target, store), ctx=ctx))
+        if cn == 'YieldExprNode':
+            return L(ast.Yield(value=self.expr(n.arg) if getattr(n, 'arg', None) is not None else None))
         if cn == 'LambdaNode':
             return L(ast.Call(func=ast.Name(id='__unsupported__', ctx=ast.Load()), args=[ast.Constant(value=cn)], keywords=[]))
         return L(ast.Call(func=ast.Name(id='__unsupported__', ctx=ast.Load()), args=[ast.Constant(value=cn)], keywords=[]))
